@@ -111,6 +111,14 @@ def gen_recipes(rng, n):
                 i = rng.randint(0, len(w) - 1); f = w[i:i + rng.randint(1, 3)]
                 if rng.random() < 0.5:
                     f = f.swapcase()
+            if rng.random() < 0.25:
+                # a find text LONGER than what is left of within_text that still matches: a * that matches nothing, ~-escaped specials
+                w = rtext(rng, 3, ['a', 'b', 'c', '*', '?']) or 'a'
+                f = ''.join(('~' + ch if ch in '*?' else ch) for ch in w)
+                for _ in range(rng.randint(0, 2)):
+                    i = rng.randint(0, len(f))
+                    if not (i > 0 and f[i - 1] == '~'):
+                        f = f[:i] + '*' + f[i:]
             s = rng.choice([None, None, 1, rng.randint(-1, len(w) + 2)])
             if via == 'formula' and (w == '' or f == '' or w.startswith('=') or f.startswith('=') or w != w.strip() or (s is not None and s < 0)):
                 via = 'direct'
